@@ -283,6 +283,7 @@ class Interp:
         self.descend = descend_translators
         self.fn_stack: list[FunctionInfo] = []
         self.handled: set = set()        # token paths whose cached Cell objects went through handle_cell
+        self.stubs: dict = {}            # qualname -> callable(interp, args, kwargs, node) replacing a repo function
 
     # ---- choices --------------------------------------------------------------------------------
     def choose(self, key, options):
@@ -750,7 +751,7 @@ class Interp:
             if key in self.cell_attrs:
                 return self.cell_attrs[key]
             if name in ('title', 'column', 'row') and base.tag.startswith('tok:') and base.tag in self.handled:
-                return NumV('coord', (name, base.origin))
+                return NumV('coord', (name, base.origin, base.tag))
             if name in ('title', 'column', 'row', 'value'):
                 v = getattr(base, name)
                 if isinstance(v, Thunk):
@@ -1105,6 +1106,9 @@ class Interp:
         return code_of(Part('slot', translator, subj, node=node))
 
     def call_repo(self, fi: FunctionInfo, args, kwargs, node) -> V:
+        stub = self.stubs.get(fi.qualname)
+        if stub is not None:
+            return stub(self, args, kwargs, node)
         if self.depth > MAX_DEPTH:
             raise AnalysisError('T', f'call depth exceeded at {fi.qualname}')
         a = fi.node.args
@@ -1657,7 +1661,8 @@ def _load(target):
 # ---------------------------------------------------------------------------------------------------
 # driver
 # ---------------------------------------------------------------------------------------------------
-def explore(src: SourceModel, grammar: Grammar, fn, max_worlds: int = MAX_WORLDS, **interp_kw) -> list[Outcome]:
+def explore(src: SourceModel, grammar: Grammar, fn, max_worlds: int = MAX_WORLDS, stubs: dict | None = None,
+            **interp_kw) -> list[Outcome]:
     """fn(interp) -> V ; explores every world reachable through the choices the evaluation needs"""
     results: list[Outcome] = []
     stack = [{}]
@@ -1668,6 +1673,8 @@ def explore(src: SourceModel, grammar: Grammar, fn, max_worlds: int = MAX_WORLDS
         if n > max_worlds:
             raise AnalysisError('T', f'more than {max_worlds} worlds')
         it = Interp(src, grammar, dict(world), **interp_kw)
+        if stubs:
+            it.stubs.update(stubs)
         try:
             v = fn(it)
             results.append(Outcome(it.world, 'return', v, effects=it.effects, notes=it.notes))
